@@ -782,6 +782,41 @@ impl<L: Lay> LayHarness<L> {
                     }
                 }
                 s.check_all(self.universe, true).map_err(|m| format!("after {what} = {:?}: {m}", r))?;
+                // the infallible counterpart: where try_reserve reports CapacityOverflow, reserve must panic with
+                // the documented message (and nothing else may happen: no abort, no return, no change)
+                if behaviour == 0 && expect == Err(()) {
+                    crate::crumbs::touch();
+                    let r2 = env::catch(|| match &mut s.c {
+                        C::Set(c) => c.reserve(add),
+                        C::Map(c) => c.reserve(add),
+                        C::Table(c) => c.reserve(add, thash),
+                    });
+                    match r2 {
+                        Ok(()) => return Err(format!("{:?}<{}>::reserve({add}) (len {len}) returned although the size is not representable", self.coll, L::NAME)),
+                        Err(m) => {
+                            if !m.contains("capacity overflow") {
+                                return Err(format!("{:?}<{}>::reserve({add}) (len {len}) panicked with {m:?} instead of the capacity-overflow panic", self.coll, L::NAME));
+                            }
+                        }
+                    }
+                    if s.dump() != before {
+                        return Err(format!("{:?}<{}>::reserve({add}) panicked and changed the table", self.coll, L::NAME));
+                    }
+                    s.check_all(self.universe, true).map_err(|m| format!("after the capacity-overflow panic of reserve({add}): {m}"))?;
+                    if len == 0 && d0.is_singleton {
+                        let r3 = env::catch(|| match self.coll {
+                            Coll::Set => drop(HashSet::<L, PlanBuild, CheckAlloc>::with_capacity_and_hasher_in(add, PlanBuild::default(), CheckAlloc)),
+                            Coll::Map => drop(HashMap::<L, L, PlanBuild, CheckAlloc>::with_capacity_and_hasher_in(add, PlanBuild::default(), CheckAlloc)),
+                            Coll::Table => drop(HashTable::<L, CheckAlloc>::with_capacity_in(add, CheckAlloc)),
+                        });
+                        match r3 {
+                            Ok(()) => return Err(format!("{:?}<{}>::with_capacity({add}) returned although the size is not representable", self.coll, L::NAME)),
+                            Err(m) if !m.contains("capacity overflow") => return Err(format!("{:?}<{}>::with_capacity({add}) panicked with {m:?} instead of the capacity-overflow panic", self.coll, L::NAME)),
+                            Err(_) => {}
+                        }
+                    }
+                    count += 1;
+                }
                 s.finish(false).map_err(|m| format!("after {what}: {m}"))?;
                 count += 1;
             }
